@@ -1,40 +1,41 @@
 #!/bin/bash
 # usage: seedcheck.sh <seed-out-dir> <name> <check-id> [tier]
-# Confirms a seeded change (demo fails with it, passes without, suite still passes),
-# runs the registered check against it, stores it under /verif/seeded/<name>/, and undoes it.
+# Confirms a seeded change (demo fails with it, passes without, suite still passes), runs the
+# registered check against it and stores it under /verif/seeded/<name>/.
+# Works on a scratch worktree of /repo (VERIF_REPO), never on /repo itself; the worktree and
+# its output are removed afterwards.
 set -u
 export GOFLAGS=-mod=mod GOPROXY=off GOSUMDB=off GOTOOLCHAIN=local
 OUT=$1; NAME=$2; CHECK=$3; TIER=${4:-quick}
 DST=/verif/seeded/$NAME
-cd /repo || exit 2
-if [ -n "$(git status --porcelain)" ]; then echo "/repo not clean"; exit 2; fi
+W=/tmp/vseed_$NAME; WOUT=/tmp/vseed_${NAME}_out
+git -C /repo worktree remove --force $W 2>/dev/null; rm -rf $W $WOUT
+git -C /repo worktree add --detach $W HEAD >/dev/null 2>&1 || { echo "cannot create worktree"; exit 2; }
+cd $W || exit 2
 DEMO=$(python3 -c "import json;print(json.load(open('$OUT/meta.json'))['demo'])")
-# place the demo
 DEMOFILE=$OUT/demo_test.go
 PKGDIR=$(head -3 $DEMOFILE | grep -oE '(ua|uacp|uasc|uapolicy|server|monitor|errors|id|stats)(/[a-z]+)?' | head -1)
 if head -5 $DEMOFILE | grep -q "^package opcua"; then PKGDIR=.; fi
 [ -z "$PKGDIR" ] && PKGDIR=.
-cp $DEMOFILE /repo/$PKGDIR/zz_seed_demo_test.go
+cp $DEMOFILE $W/$PKGDIR/zz_seed_demo_test.go
 echo "== demo without the change (must pass): $DEMO"
 RUN=$(grep -oE 'func (Test[A-Za-z0-9_]+)' $DEMOFILE | head -1 | awk '{print $2}')
-(cd /repo && go test -vet=off -count=1 -run "$RUN" ./$PKGDIR 2>&1 | tail -3)
-git apply $OUT/patch.diff || { echo "patch does not apply"; rm -f /repo/$PKGDIR/zz_seed_demo_test.go; exit 2; }
+(go test -vet=off -count=1 -run "$RUN" ./$PKGDIR 2>&1 | tail -3)
+git apply $OUT/patch.diff || { echo "patch does not apply"; cd /; git -C /repo worktree remove --force $W; exit 2; }
 echo "== demo with the change (must fail)"
-(cd /repo && go test -vet=off -count=1 -run "$RUN" ./$PKGDIR 2>&1 | tail -3)
-rm -f /repo/$PKGDIR/zz_seed_demo_test.go
+(go test -vet=off -count=1 -run "$RUN" ./$PKGDIR 2>&1 | tail -3)
+rm -f $W/$PKGDIR/zz_seed_demo_test.go
 echo "== existing suite with the change"
-(cd /repo && go build ./... && go test -vet=off -count=1 ./... 2>&1 | grep -E "^(FAIL|---|ok)" | grep -v "^ok" | head)
+(go build ./... && go test -vet=off -count=1 ./... 2>&1 | grep -E "^(FAIL|---|ok)" | grep -v "^ok" | head)
 echo "== check $CHECK ($TIER) against the change"
-cd /verif && cp evidence/$CHECK.json /tmp/ev_$CHECK.json 2>/dev/null
-timeout 1500 ./bin/vcheck $CHECK --tier $TIER 2>&1 | tail -8; RC=${PIPESTATUS[0]}
+cd /verif
+VERIF_REPO=$W VERIF_OUT=$WOUT timeout 1800 ./bin/vcheck $CHECK --tier $TIER 2>&1 | tail -8; RC=${PIPESTATUS[0]}
 echo "check exit=$RC"
-cp /tmp/ev_$CHECK.json evidence/$CHECK.json 2>/dev/null
-git -C /repo checkout -- . ; git -C /repo status --short
 mkdir -p $DST && cp $OUT/patch.diff $OUT/meta.json $DST/ && cp $DEMOFILE $DST/demo_test.go
 python3 - <<PY
 import json
 m=json.load(open('$DST/meta.json')); m['checked_with']='./bin/vcheck $CHECK --tier $TIER'; m['check_exit']=$RC; m['detected']=($RC==1)
 json.dump(m,open('$DST/meta.json','w'),indent=1)
 PY
-rm -rf /verif/replays/$CHECK 2>/dev/null
+git -C /repo worktree remove --force $W; rm -rf $W $WOUT
 echo "stored in $DST (detected=$([ $RC = 1 ] && echo yes || echo no))"
